@@ -208,3 +208,54 @@ func VerifC16_LocalVerifyStray() {
 	}
 	// (the text of the report goes through fmt, which the engine stubs: not decided here)
 }
+
+// VerifC16_Cancelled: Verify (with repair) and Prune while another goroutine cancels the
+// context at any scheduling point: a nil result still means the whole job was done - every
+// damaged chunk removed, every unreferenced chunk and temp file gone.
+func VerifC16_Cancelled() {
+	unc := vChoose("uncompressed", 2) == 1
+	base := vTempDir()
+	s, _ := NewLocalStore(base, StoreOptions{Uncompressed: unc})
+	var paths []string
+	var bad []bool
+	for n := 0; n < 2; n++ {
+		c := NewChunk([]byte{byte(0x40 + n), 1})
+		s.StoreChunk(c)
+		_, p := s.nameFromID(c.ID())
+		damaged := verifSymChoice("damaged", 2) == 1
+		if damaged {
+			other := []byte{0x7f}
+			if !unc {
+				other, _ = Compress(other)
+			}
+			os.WriteFile(p, other, 0644)
+		}
+		paths, bad = append(paths, p), append(bad, damaged)
+	}
+	ctx, cancel := verifCancelLater()
+	defer cancel()
+	if vChoose("operation", 2) == 0 {
+		var out bytes.Buffer
+		err := s.Verify(ctx, 1, true, &out)
+		vCover("verify-returned")
+		if err == nil {
+			for k, p := range paths {
+				_, statErr := os.Stat(p)
+				if bad[k] {
+					vAssert(os.IsNotExist(statErr), "verify --repair reported success after a cancellation but a damaged chunk is still in the store")
+				} else {
+					vAssert(statErr == nil, "verify removed a valid chunk")
+				}
+			}
+		}
+	} else {
+		err := s.Prune(ctx, map[ChunkID]struct{}{})
+		vCover("prune-returned")
+		if err == nil {
+			for _, p := range paths {
+				_, statErr := os.Stat(p)
+				vAssert(os.IsNotExist(statErr), "prune reported success after a cancellation but an unreferenced chunk is still in the store")
+			}
+		}
+	}
+}
